@@ -52,8 +52,9 @@ def main():
     ap.add_argument("--tier", default="quick")
     ap.add_argument("--seeds", default="1")
     ap.add_argument("--jobs", type=int, default=3)
+    ap.add_argument("--file", default="own.json", help="mutant list under mutants/ (benign.json = changes that keep every property: all checks must stay quiet)")
     a = ap.parse_args()
-    ms = json.load(open(os.path.join(VERIF, "mutants", "own.json")))
+    ms = json.load(open(os.path.join(VERIF, "mutants", a.file)))
     if a.only:
         ms = [m for m in ms if m["id"] in a.only.split(",")]
     results = []
@@ -69,7 +70,7 @@ def main():
                 harness = any(x["rc"] == 2 for x in runs)
                 line.append("%s:%s" % (c, "KILLED" if killed else ("HARNESS" if harness else "survived")))
             print("%-38s tests=%s/%s  %s" % (res["id"], res.get("tests_passed"), res.get("tests_failed"), "  ".join(line)), flush=True)
-    rp = os.path.join(VERIF, "mutants", "RESULTS.json")
+    rp = os.path.join(VERIF, "mutants", "RESULTS.json" if a.file == "own.json" else "RESULTS-" + a.file)
     old = {}
     if os.path.exists(rp):
         old = {r["id"]: r for r in json.load(open(rp))}
